@@ -85,7 +85,7 @@ CHECKS = {
          'arbitrarily nested lists prints to a text that reads back as the same expression, at top level and in every position. '
          'SHORTHANDS (Shorthand.v): for every operand e of that class, in every position, \'e `e ,e ,@e read as quote / quasiquote / unquote / unquote-splice of e, ~s and #s as '
          'resolve-scope / resolve-group of the symbol, e@k as (reval e k), e[i] and e[h:l] as (slice e i) / (slice e h l) for integers of any size; quote and quasiquote forms of '
-         'the class round-trip through the printer. PARTIAL: floats, nested special forms inside lists, {array}, escaped identifiers, non-integer offsets/bounds and the '
+         'the class round-trip through the printer, and so does every expression of the class with these prefix forms nested anywhere (RoundTripQ.v). PARTIAL: floats, {array}, escaped identifiers, non-integer offsets/bounds and the '
          'equivalence of the three bracket kinds are decided by the differential check on expressions generated from the reader grammar.' + DIFF,
     technique='Coq proof (parser inverts printer: atoms in context, lists by induction on size; one in-context theorem per shorthand) + differential correspondence + read-print-read oracle'),
  'C12': dict(
